@@ -121,6 +121,7 @@ type Obs struct {
 	StoreCalls      int    // SessionStorage.Store calls up to and including the probe request
 	ChatterFirst    string // after an abandoned exchange: the first of the five further server messages
 	AfterChatter    string // ... and store calls / client state / session file after them
+	Redial          string // "", or what the client did after the server closed the connection of an abandoned exchange
 	PlainChatterOK  string // after a successful exchange: effect of the five unencrypted messages
 	EncNotification string // ... and of the legitimate encrypted new_session_created
 }
@@ -450,6 +451,29 @@ func runCase(c *Case) Obs {
 		settle(300*time.Millisecond, func() bool { return uint64(m.GetServerSalt()) == 0x600dc0de12345678 })
 		n2, _ := store.count()
 		o.EncNotification = fmt.Sprintf("stores+%d salt-taken=%v (salt before %x)", n2-n1, uint64(m.GetServerSalt()) == 0x600dc0de12345678, uint64(salt1))
+	}
+	// an abandoned exchange is over: when the server then closes the connection the client must not come back on its own
+	// (a reconnect from the still running receive loop would run a second key exchange behind the caller's back, store its
+	// session and send encrypted traffic although CreateConnection has returned the error)
+	if (o.Class == "err" || o.Class == "panic") && int(c.ID[len(c.ID)-1])%2 == 0 {
+		srv.CloseConn()
+		settle(350*time.Millisecond, func() bool {
+			for _, e := range srv.Events() {
+				if e.Dir == "info" && e.Note == "second connection refused" {
+					return true
+				}
+			}
+			return false
+		})
+		o.Redial = "none"
+		for _, e := range srv.Events() {
+			if e.Dir == "info" && e.Note == "second connection refused" {
+				o.Redial = "dialled-again"
+			}
+		}
+		if n, _ := store.count(); n > 0 && o.AfterChatter != "" && strings.HasPrefix(o.AfterChatter, "stores=0") {
+			o.Redial += "+stored"
+		}
 	}
 	for _, e := range srv.Events() {
 		switch e.Dir {
@@ -981,6 +1005,9 @@ func leftBehind(o *Obs) string {
 		return "after the abandoned exchange the server sent five more messages on the same connection (first: " + o.ChatterFirst +
 			"; unencrypted new_session_created / bad_server_salt / rpc_result / container, 40 bytes of garbage) and the client did not stay clean: " + o.AfterChatter
 	}
+	if strings.HasPrefix(o.Redial, "dialled-again") || strings.HasSuffix(o.Redial, "+stored") {
+		return "after the exchange was abandoned (CreateConnection returned the error) and the server closed the connection, the client came back on its own: " + o.Redial
+	}
 	if o.AfterEncrypted {
 		return "the client is in the encrypted state after an abandoned key exchange"
 	}
@@ -1040,7 +1067,7 @@ func writeOutputs(cs []Case, obs []Obs, outdir string) {
 			dash(o.SrvKey), dash(o.SrvKeyID), dash(o.SrvSalt), dash(o.SrvHash1),
 			strconv.Itoa(o.EncSeen), strconv.FormatBool(o.EncOpened), dash(o.EncPacket), fj, dash(tail(o.ErrText, 200)), dash(o.Rejected),
 			dash(o.PostReq), strconv.FormatBool(o.AfterEncrypted), strconv.Itoa(o.PostPlain), strconv.FormatBool(o.HangRetried),
-			strconv.Itoa(o.StoreCalls), dash(o.AfterChatter), dash(o.PlainChatterOK), dash(o.EncNotification), strconv.Itoa(o.LateStep))
+			strconv.Itoa(o.StoreCalls), dash(o.AfterChatter), dash(o.PlainChatterOK), dash(o.EncNotification), strconv.Itoa(o.LateStep), dash(o.Redial))
 
 		// model input block
 		k := testKeys[c.Key%len(testKeys)]
